@@ -469,7 +469,12 @@ class Connection(object):
 
             if not immediate and self.socket is not None:
                 # Flush any packets remaining in the queue.
-                while self._pop_packet():
+                try:
+                    while self._pop_packet():
+                        pass
+                except socket.error:
+                    # The server may already have closed the connection;
+                    # carry on and release it at this end, too.
                     pass
 
             if self.new_networking_thread is not None:
